@@ -1542,7 +1542,7 @@ pub fn property() -> Property {
             PropSub {
                 name: "generic",
                 strategy: generic_strategy,
-                cases: |t| t.pick(50_000, 600_000),
+                cases: |t| t.pick(150_000, 1_200_000),
                 run: run_generic,
                 floors: TAMPER_FLOORS,
             }
@@ -1550,7 +1550,7 @@ pub fn property() -> Property {
             PropSub {
                 name: "roa",
                 strategy: roa_strategy,
-                cases: |t| t.pick(30_000, 350_000),
+                cases: |t| t.pick(90_000, 700_000),
                 run: run_roa,
                 floors: &[
                     ("writer:RoaBuilder", 0.15),
@@ -1567,7 +1567,7 @@ pub fn property() -> Property {
             PropSub {
                 name: "aspa",
                 strategy: aspa_strategy,
-                cases: |t| t.pick(24_000, 250_000),
+                cases: |t| t.pick(72_000, 500_000),
                 run: run_aspa,
                 floors: &[
                     ("writer:AspaBuilder", 0.12),
@@ -1582,7 +1582,7 @@ pub fn property() -> Property {
             PropSub {
                 name: "manifest",
                 strategy: mft_strategy,
-                cases: |t| t.pick(16_000, 150_000),
+                cases: |t| t.pick(48_000, 300_000),
                 run: run_mft,
                 floors: &[("writer:into_manifest", 0.2), ("expect-accept", 0.2), ("out-of-window", 0.08)],
             }
@@ -1590,7 +1590,7 @@ pub fn property() -> Property {
             PropSub {
                 name: "built",
                 strategy: built_strategy,
-                cases: |t| t.pick(24_000, 250_000),
+                cases: |t| t.pick(72_000, 500_000),
                 run: run_built,
                 floors: &[("attrs>=128", 0.12), ("attrs-126..129", 0.04), ("expect-accept", 0.2), ("out-of-window", 0.08)],
             }
